@@ -56,7 +56,15 @@ def directed(g):
     r = g.r
     W = 6.0
     n = r.randint(4, 12)
-    if r.random() < 0.5:
+    k = r.random()
+    if k < 0.3:
+        # footnote AND source rendered as table rows on every page, explicit header: every reservation is in play
+        rows = [[f"#{i}#", r.choice(["a", "b", ""])] for i in range(n)]
+        return {"df": {"cols": ["id", "c0"], "rows": rows}, "body": {},
+                "page": {"nrow": r.randint(4, 8), "col_width": W, "page_footnote": "all", "page_source": "all"},
+                "headers": [{"text": ["H id", "H c0"]}], "footnote": {"text": ["F note"], "as_table": True},
+                "source": {"text": ["R src"], "as_table": True}, "kind": "single", "strategy": "plain", "header_mode": "explicit"}
+    if k < 0.65:
         h = r.choice([2, 2, 3, 4])
         cw = W / 2
         rows = [[sized_text(r, cw, h, f"#{i}#"), r.choice(["a", "b", ""])] for i in range(n)]
